@@ -527,18 +527,49 @@ def is_error_like(n):
     return c['k'] == 'CallExpr' and c.get('callee') == 'MIR_get_error_func'
 
 
-OVF_RE = re.compile(r'__overflow = __builtin_(add|sub|mul)_overflow\(\((?P<t1>[a-z0-9_ ]+)\) ?\$1, \((?P<t2>[a-z0-9_ ]+)\) ?\$2, '
-                    r'\((?P<t3>[a-z0-9_ ]+) \*\) ?&\$0\);')
+OVF_STMT = re.compile(r'(?P<flag>\w+) = __builtin_(?P<op>add|sub|mul)_overflow\(\((?P<t1>[a-z0-9_ ]+)\) ?\$1, \((?P<t2>[a-z0-9_ ]+)\) ?\$2, '
+                      r'(?:\((?P<t3>[a-z0-9_ ]+) \*\) ?&\$0|&(?P<tmp>\w+))\);')
+OVF_DECL = re.compile(r'\{ ?(?P<t>[a-z0-9_]+) (?P<n>\w+);')
+
+
+def parse_overflow(t):
+    """`[{T tmp; FLAG = __builtin_OP_overflow((T)$1, (T)$2, &tmp);}]* FLAG = __builtin_OP_overflow((T)$1, (T)$2, (T *)&$0);`
+    -> ESig 'bin' with .flags {flag name: type descriptor}, or None when the text has no overflow builtin.  The statement
+    writing the result must be the last one (the result may be one of the sources)."""
+    if '_overflow(' not in t:
+        return None
+    temps = {m.group('n'): m.group('t') for m in OVF_DECL.finditer(t)}
+    rest = OVF_DECL.sub('', t).replace('}', ' ')
+    stmts = list(OVF_STMT.finditer(rest))
+    if not stmts or OVF_STMT.sub('', rest).strip():
+        return ESig('other:unparsed', note=t)
+    flags, res = {}, None
+    for i, m in enumerate(stmts):
+        dt = m.group('t3') if m.group('t3') else temps.get(m.group('tmp'))
+        if dt is None or not (m.group('t1') == m.group('t2') == dt):
+            return ESig('other:mixed-casts', note=t)
+        if m.group('flag') in flags or m.group('op') != stmts[0].group('op'):
+            return ESig('other:unparsed', note=t)
+        flags[m.group('flag')] = ctype_desc(dt)
+        if m.group('t3'):
+            if res is not None or i != len(stmts) - 1:
+                return ESig('other:result-written-before-the-last-flag', note=t)
+            res = m
+    if res is None:
+        return ESig('other:unparsed', note=t)
+    sg = ESig('bin', {'add': '+', 'sub': '-', 'mul': '*'}[res.group('op')], ctype_desc(res.group('t3')), operands=(1, 2), note=t)
+    sg.flags = flags
+    return sg
+
+
 BTF_RE = re.compile(r'if \((?P<neg>!)?\((?P<t>[a-z0-9_ ]+)\) \$1\) goto \$0;')
 
 
 def parse_rendered(txt, natural=None):
     t = ' '.join(txt.split())
-    m = OVF_RE.fullmatch(t)
-    if m:
-        if not (m.group('t1') == m.group('t2') == m.group('t3')):
-            return ESig('other:mixed-casts', note=t)
-        return ESig('bin', {'add': '+', 'sub': '-', 'mul': '*'}[m.group(1)], ctype_desc(m.group('t1')), operands=(1, 2), note=t)
+    sg = parse_overflow(t)
+    if sg is not None:
+        return sg
     m = BTF_RE.fullmatch(t)
     if m:
         return ESig('btf', '!' if m.group('neg') else '', ctype_desc(m.group('t')), operands=(1,), note=t)
@@ -599,7 +630,8 @@ def mir2c_sigs(tu):
                 continue
             sig = parse_rendered(txt)
             sig.node = r['stmts'][0] if r['stmts'] else None
-            sig.note = ' '.join(txt.split())[:120]
+            sig.text = ' '.join(txt.split())
+            sig.note = sig.text[:120]
             out[nm] = sig
     return f, regs, out, handled
 
